@@ -23,8 +23,8 @@ ExtZ    == ExtOnly \cup {"zwj"}
 Pict    == {"wave"}                     \* Extended_Pictographic
 Spaces  == {" ", "LF", "CR", "TAB"}
 Digits  == <<"0", "1", "2", "3", "4", "5", "6", "7", "8", "9">>
-Lowers  == <<"a", "b", "c", "d", "e", "f", "n", "t", "x", "z">>
-Uppers  == <<"A", "B", "C", "D", "E", "F", "N", "T", "X", "Z">>
+Lowers  == <<"a", "b", "c", "d", "e", "f", "h", "m", "n", "s", "t", "u", "x", "z">>
+Uppers  == <<"A", "B", "C", "D", "E", "F", "H", "M", "N", "S", "T", "U", "X", "Z">>
 IdxIn(c, S) == IF \E i \in 1..Len(S) : S[i] = c THEN CHOOSE i \in 1..Len(S) : S[i] = c ELSE 0
 UpperC(c) == IF IdxIn(c, Lowers) > 0 THEN Uppers[IdxIn(c, Lowers)] ELSE c
 LowerC(c) == IF IdxIn(c, Uppers) > 0 THEN Lowers[IdxIn(c, Uppers)] ELSE c
@@ -32,7 +32,7 @@ IsLetterC(c) == IdxIn(c, Lowers) > 0 \/ IdxIn(c, Uppers) > 0
 IsDigitC(c)  == IdxIn(c, Digits) > 0
 \* characters the reference knows (anything else makes a call UNDEF)
 KnownChars == {Digits[i] : i \in 1..10} \cup {Lowers[i] : i \in 1..Len(Lowers)} \cup {Uppers[i] : i \in 1..Len(Uppers)}
-              \cup Ctl \cup ExtZ \cup Pict \cup {"ri", " ", "-", "+", ",", ".", "%", ":", "_", "/", "[", "]", "{", "}", "\"", "\\", "#", "<", "(", ")", "'", "=", "!"}
+              \cup Ctl \cup ExtZ \cup Pict \cup {"ri", " ", "-", "+", ",", ".", "%", ":", "_", "/", "[", "]", "{", "}", "\"", "\\", "#", "<", "(", ")", "'", "=", "!", "|"}
 KnownStr(s) == \A i \in 1..Len(s) : s[i] \in KnownChars
 
 (***************************************************************************)
@@ -95,7 +95,7 @@ QText(q) == LET m == AbsI(q) fr == m % 4 IN
   (IF q < 0 THEN <<"-">> ELSE <<>>) \o NatDigits(m \div 4)
   \o (CASE fr = 0 -> <<>> [] fr = 1 -> <<".", "2", "5">> [] fr = 2 -> <<".", "5">> [] fr = 3 -> <<".", "7", "5">>)
 PlainQ(n) == Has(n, "q") /\ AbsI(n.q) < 4000000
-LetterVals == <<10, 11, 12, 13, 14, 15, 23, 29, 33, 35>>       \* digit values of Lowers in bases up to 36
+LetterVals == <<10, 11, 12, 13, 14, 15, 17, 22, 23, 28, 29, 30, 33, 35>>       \* digit values of Lowers in bases up to 36
 DigitVal(c) == IF IsDigitC(c) THEN IdxIn(c, Digits) - 1
                ELSE IF IdxIn(LowerC(c), Lowers) > 0 THEN LetterVals[IdxIn(LowerC(c), Lowers)] ELSE 99
 RECURSIVE DigitsVal(_, _, _)
@@ -242,6 +242,136 @@ JImplied(v) ==
          [] OTHER -> v
 
 (***************************************************************************)
+(* Timestamps (strict RFC 3339, whole seconds), formatdate and timeadd.    *)
+(* The calendar is computed by the specification itself: days-from-civil   *)
+(* and civil-from-days over the proleptic Gregorian calendar.              *)
+(***************************************************************************)
+MonthNames == <<<<"J", "a", "n", "u", "a", "r", "y">>, <<"F", "e", "b", "r", "u", "a", "r", "y">>, <<"M", "a", "r", "c", "h">>, <<"A", "p", "r", "i", "l">>, <<"M", "a", "y">>, <<"J", "u", "n", "e">>, <<"J", "u", "l", "y">>, <<"A", "u", "g", "u", "s", "t">>, <<"S", "e", "p", "t", "e", "m", "b", "e", "r">>, <<"O", "c", "t", "o", "b", "e", "r">>, <<"N", "o", "v", "e", "m", "b", "e", "r">>, <<"D", "e", "c", "e", "m", "b", "e", "r">>>>
+DayNames == <<<<"S", "u", "n", "d", "a", "y">>, <<"M", "o", "n", "d", "a", "y">>, <<"T", "u", "e", "s", "d", "a", "y">>, <<"W", "e", "d", "n", "e", "s", "d", "a", "y">>, <<"T", "h", "u", "r", "s", "d", "a", "y">>, <<"F", "r", "i", "d", "a", "y">>, <<"S", "a", "t", "u", "r", "d", "a", "y">>>>
+IsLeap(y) == (y % 4 = 0 /\ y % 100 # 0) \/ y % 400 = 0
+DaysIn(m, y) == IF m \in {1, 3, 5, 7, 8, 10, 12} THEN 31 ELSE IF m \in {4, 6, 9, 11} THEN 30 ELSE IF IsLeap(y) THEN 29 ELSE 28
+DaysFromCivil(y0, m, d) ==
+  LET y == IF m <= 2 THEN y0 - 1 ELSE y0
+      era == y \div 400
+      yoe == y - era * 400
+      mp == (m + 9) % 12
+      doy == (153 * mp + 2) \div 5 + d - 1
+      doe == yoe * 365 + yoe \div 4 - yoe \div 100 + doy
+  IN era * 146097 + doe - 719468
+CivilFromDays(z0) ==
+  LET z == z0 + 719468
+      era == z \div 146097
+      doe == z - era * 146097
+      yoe == (doe - doe \div 1460 + doe \div 36524 - doe \div 146096) \div 365
+      doy == doe - (365 * yoe + yoe \div 4 - yoe \div 100)
+      mp == (5 * doy + 2) \div 153
+      d == doy - (153 * mp + 2) \div 5 + 1
+      m == IF mp < 10 THEN mp + 3 ELSE mp - 9
+  IN [y |-> yoe + era * 400 + (IF m <= 2 THEN 1 ELSE 0), m |-> m, d |-> d]
+Weekday(y, m, d) == (DaysFromCivil(y, m, d) + 4) % 7          \* 0 = Sunday; 1970-01-01 was a Thursday
+
+DigAt(s, I) == \A i \in I : IsDigitC(s[i])
+N2(s, i) == DigitVal(s[i]) * 10 + DigitVal(s[i + 1])
+N4(s, i) == N2(s, i) * 100 + N2(s, i + 2)
+\* [ok, y, mo, d, h, mi, s, off] (off: zone offset in minutes) / REJ / UNDEF
+ParseTS(s) ==
+  IF ~(\A i \in 1..Len(s) : s[i] \in KnownChars) THEN UNDEF
+  ELSE IF Len(s) < 19 THEN REJ
+  ELSE IF "." \in CharSet(s) \/ "," \in CharSet(s) \/ "t" \in CharSet(s) \/ "z" \in CharSet(s) \/ Len(s) \notin {20, 25} THEN UNDEF
+  ELSE IF ~(DigAt(s, {1, 2, 3, 4, 6, 7, 9, 10, 12, 13, 15, 16, 18, 19}) /\ s[5] = "-" /\ s[8] = "-" /\ s[11] = "T" /\ s[14] = ":" /\ s[17] = ":") THEN REJ
+  ELSE LET y == N4(s, 1) mo == N2(s, 6) d == N2(s, 9) h == N2(s, 12) mi == N2(s, 15) sc == N2(s, 18) IN
+       IF mo < 1 \/ mo > 12 \/ d < 1 \/ d > DaysIn(mo, y) \/ h > 23 \/ mi > 59 \/ sc > 59 THEN REJ
+       ELSE IF Len(s) = 20 THEN (IF s[20] = "Z" THEN [ok |-> TRUE, y |-> y, mo |-> mo, d |-> d, h |-> h, mi |-> mi, s |-> sc, off |-> 0] ELSE REJ)
+       ELSE IF ~(s[20] \in {"+", "-"} /\ DigAt(s, {21, 22, 24, 25}) /\ s[23] = ":") THEN REJ
+       ELSE IF N2(s, 21) > 23 \/ N2(s, 24) > 59 THEN REJ
+       ELSE [ok |-> TRUE, y |-> y, mo |-> mo, d |-> d, h |-> h, mi |-> mi, s |-> sc,
+             off |-> (IF s[20] = "-" THEN -1 ELSE 1) * (N2(s, 21) * 60 + N2(s, 24))]
+Pad2(n) == IF n < 10 THEN <<"0">> \o NatDigits(n) ELSE NatDigits(n)
+Pad4(n) == IF n < 10 THEN <<"0", "0", "0">> \o NatDigits(n) ELSE IF n < 100 THEN <<"0", "0">> \o NatDigits(n) ELSE IF n < 1000 THEN <<"0">> \o NatDigits(n) ELSE NatDigits(n)
+ZoneText(off, colon) == LET a == AbsI(off) IN
+  <<IF off < 0 THEN "-" ELSE "+">> \o Pad2(a \div 60) \o (IF colon THEN <<":">> ELSE <<>>) \o Pad2(a % 60)
+FDLetters == {"Y", "M", "D", "E", "h", "H", "A", "a", "m", "s", "Z", "x", "T", "b", "d", "e", "y", "z"}
+FDOther == {" ", "-", ":", "/", ",", ".", "'", "0", "1", "2"}
+RECURSIVE RunLen(_, _, _)
+RunLen(f, i, c) == IF i <= Len(f) /\ f[i] = c THEN 1 + RunLen(f, i + 1, c) ELSE 0
+\* end (index of the closing quote) of a quoted literal that opens at i, or 0 when unterminated; '' inside is an escaped quote
+RECURSIVE QuoteEnd(_, _)
+QuoteEnd(f, j) == IF j > Len(f) THEN 0
+                  ELSE IF f[j] # "'" THEN QuoteEnd(f, j + 1)
+                  ELSE IF j + 1 <= Len(f) /\ f[j + 1] = "'" THEN QuoteEnd(f, j + 2)
+                  ELSE j
+RECURSIVE Unquote(_)
+Unquote(r) == IF r = <<>> THEN <<>> ELSE IF r[1] = "'" THEN <<"'">> \o Unquote(SubSeq(r, 3, Len(r))) ELSE <<r[1]>> \o Unquote(Tail(r))
+FDVerb(c, n, t) ==      \* the text of verb letter c repeated n times, or <<"?">> when invalid
+  CASE c = "Y" -> IF n = 2 THEN Pad2(t.y % 100) ELSE IF n = 4 THEN Pad4(t.y) ELSE <<"?">>
+    [] c = "M" -> IF n = 1 THEN NatDigits(t.mo) ELSE IF n = 2 THEN Pad2(t.mo) ELSE IF n = 3 THEN SubSeq(MonthNames[t.mo], 1, 3) ELSE IF n = 4 THEN MonthNames[t.mo] ELSE <<"?">>
+    [] c = "D" -> IF n = 1 THEN NatDigits(t.d) ELSE IF n = 2 THEN Pad2(t.d) ELSE <<"?">>
+    [] c = "E" -> IF n = 3 THEN SubSeq(DayNames[Weekday(t.y, t.mo, t.d) + 1], 1, 3) ELSE IF n = 4 THEN DayNames[Weekday(t.y, t.mo, t.d) + 1] ELSE <<"?">>
+    [] c = "h" -> IF n = 1 THEN NatDigits(t.h) ELSE IF n = 2 THEN Pad2(t.h) ELSE <<"?">>
+    [] c = "H" -> LET h12 == IF t.h % 12 = 0 THEN 12 ELSE t.h % 12 IN IF n = 1 THEN NatDigits(h12) ELSE IF n = 2 THEN Pad2(h12) ELSE <<"?">>
+    [] c = "A" -> IF n = 2 THEN (IF t.h < 12 THEN <<"A", "M">> ELSE <<"P", "M">>) ELSE <<"?">>
+    [] c = "a" -> IF n = 2 THEN (IF t.h < 12 THEN <<"a", "m">> ELSE <<"p", "m">>) ELSE <<"?">>
+    [] c = "m" -> IF n = 1 THEN NatDigits(t.mi) ELSE IF n = 2 THEN Pad2(t.mi) ELSE <<"?">>
+    [] c = "s" -> IF n = 1 THEN NatDigits(t.s) ELSE IF n = 2 THEN Pad2(t.s) ELSE <<"?">>
+    [] c = "Z" -> IF n = 1 THEN (IF t.off = 0 THEN <<"Z">> ELSE ZoneText(t.off, TRUE))
+                  ELSE IF n = 3 THEN (IF t.off = 0 THEN <<"U", "T", "C">> ELSE ZoneText(t.off, FALSE))
+                  ELSE IF n = 4 THEN ZoneText(t.off, FALSE) ELSE IF n = 5 THEN ZoneText(t.off, TRUE) ELSE <<"?">>
+    [] OTHER -> <<"?">>
+RECURSIVE FDRun(_, _, _, _)
+FDRun(f, i, t, out) ==
+  IF i > Len(f) THEN OKV(out)
+  ELSE IF f[i] = "'" THEN
+       (IF i + 1 <= Len(f) /\ f[i + 1] = "'" THEN FDRun(f, i + 2, t, Append(out, "'"))
+        ELSE LET e == QuoteEnd(f, i + 1) IN
+             IF e = 0 THEN REJ ELSE FDRun(f, e + 1, t, out \o Unquote(SubSeq(f, i + 1, e - 1))))
+  ELSE IF f[i] \in FDLetters THEN
+       LET n == RunLen(f, i, f[i]) v == FDVerb(f[i], n, t) IN
+       IF v = <<"?">> THEN REJ ELSE FDRun(f, i + n, t, out \o v)
+  ELSE FDRun(f, i + 1, t, Append(out, f[i]))
+FormatDateRef(f, ts) ==
+  IF ~(\A i \in 1..Len(f) : f[i] \in FDLetters \cup FDOther) THEN UNDEF
+  ELSE LET t == ParseTS(ts) IN
+       IF Has(t, "undef") THEN UNDEF ELSE IF ~t.ok THEN REJ ELSE FDRun(f, 1, t, <<>>)
+
+\* durations: [sign] (digits unit)+ with units h m s; total in seconds, or REJ / UNDEF
+RECURSIVE DurRun(_, _, _)
+DurRun(d, i, acc) ==
+  IF i > Len(d) THEN OKV(acc)
+  ELSE IF ~IsDigitC(d[i]) THEN (IF d[i] = "." THEN UNDEF ELSE REJ)
+  ELSE LET nm == ScanNum(d, i, 0, 0) IN
+       IF nm.n >= 4 THEN UNDEF
+       ELSE IF nm.i > Len(d) THEN REJ                                        \* missing unit
+       ELSE IF d[nm.i] = "." THEN UNDEF
+       ELSE LET ul == IF nm.i + 1 <= Len(d) /\ ~IsDigitC(d[nm.i + 1]) /\ d[nm.i + 1] # "." THEN 2 ELSE 1
+                u == SubSeq(d, nm.i, nm.i + ul - 1) IN
+            IF u = <<"h">> THEN DurRun(d, nm.i + 1, acc + nm.v * 3600)
+            ELSE IF u = <<"m">> THEN DurRun(d, nm.i + 1, acc + nm.v * 60)
+            ELSE IF u = <<"s">> THEN DurRun(d, nm.i + 1, acc + nm.v)
+            ELSE IF u \in {<<"m", "s">>, <<"u", "s">>, <<"n", "s">>} THEN UNDEF
+            ELSE REJ
+DurRef(d) ==
+  IF ~KnownStr(d) THEN UNDEF
+  ELSE LET neg == d # <<>> /\ d[1] = "-"
+           body == IF d # <<>> /\ d[1] \in {"-", "+"} THEN Tail(d) ELSE d IN
+       IF body = <<>> THEN REJ
+       ELSE IF body = <<"0">> THEN OKV(0)
+       ELSE LET r == DurRun(body, 1, 0) IN
+            IF Has(r, "undef") \/ ~r.ok THEN r ELSE OKV(IF neg THEN -r.val ELSE r.val)
+TimeAddRef(ts, d) ==
+  LET t == ParseTS(ts) du == DurRef(d) IN
+  IF Has(t, "undef") THEN UNDEF
+  ELSE IF ~t.ok THEN REJ
+  ELSE IF Has(du, "undef") THEN UNDEF
+  ELSE IF ~du.ok THEN REJ
+  ELSE LET secs == t.h * 3600 + t.mi * 60 + t.s + du.val
+           days == DaysFromCivil(t.y, t.mo, t.d) + secs \div 86400
+           sod == secs % 86400
+           c == CivilFromDays(days) IN
+       IF t.y < 1600 \/ c.y < 1 \/ c.y > 9999 THEN UNDEF
+       ELSE OKV(Pad4(c.y) \o <<"-">> \o Pad2(c.m) \o <<"-">> \o Pad2(c.d) \o <<"T">> \o Pad2(sod \div 3600) \o <<":">> \o Pad2((sod % 3600) \div 60)
+                \o <<":">> \o Pad2(sod % 60) \o (IF t.off = 0 THEN <<"Z">> ELSE ZoneText(t.off, TRUE)))
+
+(***************************************************************************)
 (* The reference                                                           *)
 (***************************************************************************)
 OpOfFn == [add |-> "Add", subtract |-> "Subtract", multiply |-> "Multiply", divide |-> "Divide", modulo |-> "Modulo",
@@ -377,13 +507,21 @@ TRef(fn, a) ==
          IF n = 1 /\ WhollyKnown(a[1]) /\ JTextable(a[1]) THEN OKS(JText(a[1])) ELSE UNDEF
     [] fn = "jsonencode>jsondecode" ->
          IF n = 1 /\ WhollyKnown(a[1]) /\ JTextable(a[1]) THEN OKV(JImplied(a[1])) ELSE UNDEF
+    [] fn = "formatdate" ->
+         IF n = 2 /\ IsStrK(a[1]) /\ IsStrK(a[2]) THEN
+            LET r == FormatDateRef(StrOf(a[1]), StrOf(a[2])) IN IF Has(r, "undef") THEN UNDEF ELSE IF ~r.ok THEN REJ ELSE OKS(r.val)
+         ELSE UNDEF
+    [] fn = "timeadd" ->
+         IF n = 2 /\ IsStrK(a[1]) /\ IsStrK(a[2]) THEN
+            LET r == TimeAddRef(StrOf(a[1]), StrOf(a[2])) IN IF Has(r, "undef") THEN UNDEF ELSE IF ~r.ok THEN REJ ELSE OKS(r.val)
+         ELSE UNDEF
     [] fn = "csvdecode" ->
          IF n = 1 /\ IsStrK(a[1]) THEN CsvRef(StrOf(a[1])) ELSE UNDEF
     [] OTHER -> UNDEF
 
 TRefFns == DOMAIN OpOfFn \cup {"ceil", "floor", "int", "signum", "min", "max", "pow", "log", "parseint", "upper", "lower", "title", "strlen",
              "reverse", "substr", "join", "split", "chomp", "indent", "trimspace", "trim", "trimprefix", "trimsuffix", "replace",
-             "format", "formatlist", "jsonencode", "jsonencode>jsondecode", "csvdecode"}
+             "format", "formatlist", "jsonencode", "jsonencode>jsondecode", "csvdecode", "formatdate", "timeadd"}
 
 \* A string the reference spells may have a different NORMAL form (a letter followed by the combining
 \* acute composes); such results are not judged.
